@@ -54,6 +54,17 @@ def engBld (s : Option SetB) (a : List String) : Option SetB × String :=
           | some b' => (some b', "ok")
           | none => (s, "err")
         | _, _ => (s, "bad-op")
+      | ["make", t, tid, elems] =>
+        -- entities.MakeTemplateSet / MakeDataSet: a NEW set of the given type with one record (copying add path);
+        -- the engine's set is replaced by it, or kept when the convenience function reports an error
+        match parseSetType t, tid.toNat?, parseElems elems with
+        | some ty, some tid, some es =>
+          if ty == .template || ty == .data then
+            match (SetB.new.prepare ty tid).bind (·.addRecord es tid) with
+            | some b' => (some b', "ok")
+            | none => (s, "err")
+          else (s, "bad-op")
+        | _, _, _ => (s, "bad-op")
       | ["upd"] => (some b.updateLen, "ok")
       | ["reset"] => (some b.reset, "ok")
       | ["obs"] => (s, setObs b)
